@@ -22,6 +22,10 @@ import (
 	"log"
 	"net/http"
 	"net/http/httptest"
+	"os"
+	"os/exec"
+	"strconv"
+	"strings"
 
 	"rivaas.dev/router"
 	"verif/harness/hx"
@@ -42,6 +46,7 @@ var script func(c *router.Context)
 func init() {
 	log.SetOutput(io.Discard) // net/http reports every cookie byte it drops
 	rt.GET("/c19", func(c *router.Context) { script(c) })
+	rt.GET("/c19p/:seg/end", func(c *router.Context) { script(c) })
 	rt.Warmup()
 }
 
@@ -53,6 +58,38 @@ func serve(hdr map[string]string, f func(c *router.Context)) *httptest.ResponseR
 			req.Header.Set(k, v)
 		}
 	}
+	rec := httptest.NewRecorder()
+	script = f
+	rt.ServeHTTP(rec, req)
+	return rec
+}
+
+// canary: a fixed handful of calls whose observations depend on nothing but process-wide state. It is
+// compared with its own value at process start (never with a constant): it judges nothing, it only
+// tells whether an earlier case contaminated the process.
+func canary() string {
+	var b strings.Builder
+	rec := serve(nil, func(c *router.Context) { _ = c.JSON(200, map[string]int{"a": 1}) })
+	fmt.Fprintf(&b, "%d|%q|%q;", rec.Code, rec.Header().Get("Content-Type"), rec.Body.String())
+	rec = serve(nil, func(c *router.Context) { _ = c.Stringf(200, "c=%s;", "v") })
+	fmt.Fprintf(&b, "%d|%q|%q;", rec.Code, rec.Header().Get("Content-Type"), rec.Body.String())
+	rec = serve(nil, func(c *router.Context) { _ = c.ASCIIJSON(201, "\u00e9") })
+	fmt.Fprintf(&b, "%d|%q|%q;", rec.Code, rec.Header().Get("Content-Type"), rec.Body.String())
+	serve(map[string]string{"Accept": "text/html;q=0.5, application/json", "Accept-Encoding": "br;q=0, gzip"}, func(c *router.Context) {
+		fmt.Fprintf(&b, "%q|%q|%q;", c.Accepts("html", "json"), c.AcceptsEncodings("br", "gzip"), c.Accepts("html"))
+		c.Header("X-Canary", "a\r\nb")
+		c.AppendHeader("X-Canary", "c")
+		fmt.Fprintf(&b, "%q;", c.Response.Header()["X-Canary"])
+	})
+	return b.String()
+}
+
+// serveAt is serve on another request path (escaped form; "" = /c19).
+func serveAt(path string, f func(c *router.Context)) *httptest.ResponseRecorder {
+	if path == "" {
+		path = "/c19"
+	}
+	req := httptest.NewRequest(http.MethodGet, path, nil)
 	rec := httptest.NewRecorder()
 	script = f
 	rt.ServeHTTP(rec, req)
@@ -83,24 +120,49 @@ func main() {
 	case "gen":
 		r := hx.NewRand(a.Seed)
 		st := hx.NewStats()
-		for i, k := range fixedCases() {
-			fmt.Fprintln(w, emit(fmt.Sprintf("c19-fix-%d", i), k, st))
-		}
-		for i := 0; i < a.N; i++ {
+		// generation is pure (no call into the router), so a run can be resumed at any case index
+		skip, _ := strconv.Atoi(os.Getenv("C19_SKIP"))
+		fixed := fixedCases()
+		total := len(fixed) + a.N
+		// Every case line must reproduce on its own. A case that leaves process-wide state behind (a
+		// poisoned package-level value, a dirty pool) fails on its own trailing steps; the canary notices
+		// the contamination before the NEXT case and the rest of the run continues in a fresh process.
+		base := canary()
+		for i := 0; i < total; i++ {
 			var k caseT
-			switch x := r.Intn(24); {
-			case x < 9:
-				k.N = genNeg(r)
-			case x < 13:
-				k.F = genFmt(r)
-			case x < 17:
-				k.J = genJsn(r)
-			case x < 20:
-				k.H = genHdr(r)
-			default:
-				k.R = genRen(r)
+			id := fmt.Sprintf("c19-fix-%d", i)
+			if i < len(fixed) {
+				k = fixed[i]
+			} else {
+				id = fmt.Sprintf("c19-%d-%d", a.Seed, i-len(fixed))
+				switch x := r.Intn(24); {
+				case x < 9:
+					k.N = genNeg(r)
+				case x < 13:
+					k.F = genFmt(r)
+				case x < 17:
+					k.J = genJsn(r)
+				case x < 20:
+					k.H = genHdr(r)
+				default:
+					k.R = genRen(r)
+				}
 			}
-			fmt.Fprintln(w, emit(fmt.Sprintf("c19-%d-%d", a.Seed, i), k, st))
+			if i < skip {
+				continue
+			}
+			if i > skip && canary() != base {
+				w.Flush()
+				cmd := exec.Command(os.Args[0], os.Args[1:]...)
+				cmd.Env = append(os.Environ(), "C19_SKIP="+strconv.Itoa(i))
+				cmd.Stdout, cmd.Stderr = os.Stdout, os.Stderr
+				if err := cmd.Run(); err != nil {
+					fmt.Fprintln(os.Stderr, "resumed run failed:", err)
+					os.Exit(1)
+				}
+				return
+			}
+			fmt.Fprintln(w, emit(id, k, st))
 		}
 		st.Emit(w)
 	case "replay":
